@@ -175,6 +175,13 @@ def run(res, tier, seed):
                 ctx = dict(history=h, position=k, spacecraft=sc, file=(os.path.basename(f) if f else None),
                            rewritten_file_content=(rw_state if f == rw_path else None), same_dict_object_as_before=passed is (last_passed or [None])[0],
                            custom_keys=sorted(custom) if custom else None, earlier=[(a, os.path.basename(b) if b else None, c_) for a, b, c_ in hist[-3:]], seed=seed)
+                if rng.random() < 0.25:
+                    # a direct use of the public reading helper in between (e.g. to inspect a file): no request may depend on it
+                    try:
+                        Calibrator.read_coeffs(rng.choice([None, copy_path, mod_path, part_path]))
+                        ctx["read_coeffs_called_before"] = True
+                    except Exception:  # noqa
+                        pass
                 try:
                     c = Calibrator(sc, custom_coeffs=passed, coeffs_file=f)
                     out = "ok"
